@@ -6,21 +6,29 @@
 (* target; after a kill the file found on disk must be the one the              *)
 (* specification predicts and the resumed run must end like the uninterrupted.  *)
 EXTENDS TraceBase, FileSys
-VARIABLES l, target, killed
-vars == <<fsVars, l, target, killed>>
+VARIABLES l, target, killed, writers
+vars == <<fsVars, l, target, killed, writers>>
 Ev == TheTrace[l]
 Is(name) == l <= TraceLen /\ Ev.e = name
-Keep == UNCHANGED <<target, killed>>
+Keep == UNCHANGED <<target, killed, writers>>
+KeepT == UNCHANGED <<target, killed>>
 OK == TargetOK(dir', target)
 
-Init == l = 1 /\ dir = <<>> /\ cur = 0 /\ sizes = (0 :> 0) /\ target = "" /\ killed = FALSE
+Init == l = 1 /\ dir = <<>> /\ cur = 0 /\ sizes = (0 :> 0) /\ target = "" /\ killed = FALSE /\ writers = <<>>
 
-TReset == /\ Is("Reset") /\ dir' = <<>> /\ cur' = 0 /\ sizes' = (0 :> 0) /\ target' = Ev.target /\ killed' = FALSE /\ l' = l + 1
+TReset == /\ Is("Reset") /\ dir' = <<>> /\ cur' = 0 /\ sizes' = (0 :> 0) /\ target' = Ev.target /\ killed' = FALSE /\ writers' = <<>> /\ l' = l + 1
 \* "ckpt/<k>/<size>" announced by the driver right before the callback writes checkpoint k
 TMarker == /\ Is("Ckpt") /\ ~killed /\ Announce(Ev.k, Ev.size) /\ Keep /\ l' = l + 1
+\* writers: path -> <<checkpoint number, thread>> of the last open for writing.  Within one process (MPI ranks are threads of the shim) the
+\* callbacks of different ranks are not ordered by any collective: two ranks writing the same path for the same checkpoint race in a
+\* real execution, whatever order the threads happened to run in
 TOpen == /\ Is("Open") /\ ~killed
-         /\ IF Ev.wr = 1 THEN OpenW(Ev.path, Ev.trunc = 1, Ev.creat = 1) ELSE UNCHANGED fsVars
-         /\ OK /\ Keep /\ l' = l + 1
+         /\ IF Ev.wr = 1
+            THEN /\ OpenW(Ev.path, Ev.trunc = 1, Ev.creat = 1)
+                 /\ (Ev.path \in DOMAIN writers /\ writers[Ev.path][1] = cur) => writers[Ev.path][2] = Ev.tid
+                 /\ writers' = IF Ev.path \in DOMAIN writers THEN [writers EXCEPT ![Ev.path] = <<cur, Ev.tid>>] ELSE (Ev.path :> <<cur, Ev.tid>>) @@ writers
+            ELSE UNCHANGED fsVars /\ UNCHANGED writers
+         /\ OK /\ KeepT /\ l' = l + 1
 TWrite == /\ Is("Write") /\ ~killed
           /\ WriteN(Ev.path, Ev.done)
           /\ (Ev.path = target /\ Ev.req > 0) => FALSE      \* inside a write to the target the file is a partial checkpoint
@@ -28,18 +36,18 @@ TWrite == /\ Is("Write") /\ ~killed
 TClose == Is("Close") /\ ~killed /\ UNCHANGED fsVars /\ Keep /\ l' = l + 1
 TRename == /\ Is("Rename") /\ ~killed /\ Ev.ok = 1 /\ RenameTo(Ev.from, Ev.to) /\ OK /\ Keep /\ l' = l + 1
 TUnlink == /\ Is("Unlink") /\ ~killed /\ Remove(Ev.path) /\ OK /\ Keep /\ l' = l + 1
-TKilled == Is("Killed") /\ ~killed /\ killed' = TRUE /\ UNCHANGED <<fsVars, target>> /\ l' = l + 1
+TKilled == Is("Killed") /\ ~killed /\ killed' = TRUE /\ UNCHANGED <<fsVars, target, writers>> /\ l' = l + 1
 \* what was found on disk after the kill (or at the end of a complete run)
 TObserved ==
     /\ Is("Observed")
     /\ LET c == Lookup(dir, target) IN
        IF c = Absent THEN Ev.exists = 0
        ELSE Ev.exists = 1 /\ Complete(c) /\ Ev.k = c[1]     \* byte-identical to the reference text of checkpoint c[1]
-    /\ UNCHANGED <<fsVars, target, killed>> /\ l' = l + 1
+    /\ UNCHANGED <<fsVars, target, killed, writers>> /\ l' = l + 1
 \* the run is started again from what is on disk (the directory keeps whatever the killed run left, e.g. a partial temporary file)
-TRestart == Is("Restart") /\ killed' = FALSE /\ UNCHANGED <<fsVars, target>> /\ l' = l + 1
+TRestart == Is("Restart") /\ killed' = FALSE /\ writers' = <<>> /\ UNCHANGED <<fsVars, target>> /\ l' = l + 1
 \* resuming from it ends with the final checkpoint of the uninterrupted run
-TResumed == Is("Resumed") /\ Ev.equal = 1 /\ UNCHANGED <<fsVars, target, killed>> /\ l' = l + 1
+TResumed == Is("Resumed") /\ Ev.equal = 1 /\ UNCHANGED <<fsVars, target, killed, writers>> /\ l' = l + 1
 
 Next == TRestart \/ TReset \/ TMarker \/ TOpen \/ TWrite \/ TClose \/ TRename \/ TUnlink \/ TKilled \/ TObserved \/ TResumed
 Spec == Init /\ [][Next]_vars
